@@ -84,7 +84,19 @@ def discover_readers(repo, modules=("parser", "interpreter")):
             out[f.name] = Reader(f)
     # kinds: pair readers return a 2-tuple (or another pair reader's result); peek helpers return a non-index value
     def rets(fn):
-        return [n.value for n in walk_local(fn) if isinstance(n, ast.Return) and n.value is not None]
+        out_ = []
+
+        def alts(v):
+            # the alternatives of a conditional result, except the `X if <bound> else None` shape of the peek helpers
+            if isinstance(v, ast.IfExp) and not (isinstance(v.orelse, ast.Constant) and v.orelse.value is None):
+                alts(v.body)
+                alts(v.orelse)
+            else:
+                out_.append(v)
+        for n in walk_local(fn):
+            if isinstance(n, ast.Return) and n.value is not None:
+                alts(n.value)
+        return out_
     changed = True
     pair = set()
     while changed:
